@@ -1,10 +1,14 @@
 NOTES = "Every check is ./run.sh <id> <tier>; it rebuilds its harness against /repo's working tree (go build, replace => /repo) on every call. known_findings.txt lists open/fixed findings."
 ENGINES = [
- {"name": "enum", "path": "lib/ev, lib/topo, lib/lat", "serves_properties": ["C01"], "kind_free_text": "small-scope exhaustive enumerators over lattice bit assignments / parameter products with independent reference oracles"},
+ {"name": "bfs", "path": "checks/c09, lib/meshq", "serves_properties": ["C09"], "kind_free_text": "explicit-state breadth-first search over operation histories on the real objects (successor = replay shortest history on a fresh instance + one op), canonical state hashing, differential reference model"},
+ {"name": "enum", "path": "lib/ev, lib/topo, lib/lat", "serves_properties": ["C01","C02","C03","C04","C05","C06","C07","C08","C10","C11","C14","C15","C17","C18","C19","C20"], "kind_free_text": "small-scope exhaustive enumerators over lattice bit assignments / parameter products with independent reference oracles"},
 ]
-ENGINE = {}
+ENGINE = {"C09": "bfs"}
 NA = {}
 CHECKS = {
+ "C09": ("model_checking", "explicit-state BFS over operation histories executed on the real maps/meshes, differential against a Go map / face-list reference after every transition",
+   "Breadth-first search to closure over histories of Store/Delete/Append|Add on all 12 coordinate-keyed map types (keys include a verified fast-hash collision and both signed zeros) and of Add/Remove/index-touch/AddMesh/Copy on 3D and 2D meshes over a 7-face pool; every transition runs on the real object and on the reference, the complete query set is compared after each, every mesh-returning method is evaluated in every reachable state, and the library's in-place editors are checked for a stale index on the catalogue. States are deduplicated by stored keys (bit-exact), values, fast/slow mode and index-built bit.",
+   "Reference = ordinary Go map and linear scans; the hooks (build tag verif) only read fast/slow mode, index identity and the hash. Histories beyond the value caps (lists longer than 2, counters above 3) are not explored.", "DESIGN.md section 4 C09"),
  "C01": ("exploration", "bounded exhaustive enumeration of lattice bit assignments and generator parameter products; independent topology + winding-number oracle",
    "Every inside/outside assignment of 3x2x2 (quick) / 3x3x2 (thorough) inner lattice blocks in all axis orientations, every 2D block up to 4x4, every bitmap up to 4x4 (5x4 thorough), every subset of 2x2x2/3x2x2 box grids, every 3x3 height grid over 3 levels, and the full parameter product of the primitive generators is meshed by the real code and judged by an independent manifold/orientation/winding checker. By the finite-quotient argument of DESIGN.md (every vertex star of marching cubes lives in a 3x3x2 block) the thorough tier covers the property's whole quantifier for marching cubes.",
    "Trusts lib/topo (200 lines, independent of the library) and coordinate-equality vertex identity; between-lattice behaviour of solids is irrelevant to topology.", "DESIGN.md section 4 C01"),
